@@ -309,6 +309,14 @@ def r_plumb(ctx):
     namesake_plumbing(ctx, ctx.prog, r"^(<)?dnp3::outstation::", 60, "plumbing")
 
 
+def r11(ctx):
+    """'retried unchanged up to the configured number of times' after the confirm timeout, 'a new series starting no sooner than the
+    retry delay': the confirm deadline of an unsolicited response is fixed when it is (re)transmitted; traffic that does not end the
+    wait (a wrong-sequence confirm, another request, a deferred READ) does not restart it."""
+    prog = ctx.prog
+    deadline_discipline(ctx, prog.abody("OutstationSession::perform_unsolicited_response_series"), r"OutstationSession::wait_for_unsolicited_confirm$", r"OutstationSession::new_confirm_deadline$", "unsol-confirm-deadline")
+
+
 RULES = [
     ("C14.R1", "T2", "gates of check_unsolicited; state transitions; retry deadline", r1),
     ("C14.R2", "T8/T2", "null and data responses use fresh sequence numbers; null never retries unchanged", r2),
@@ -319,4 +327,5 @@ RULES = [
     ("C14.R8", "T3", "database transactions wake the session", r8),
     ("C14.R9", "T5", "one unsolicited series at a time", r9),
     ("C14.R10", "T8-namesake", "the outstation's configuration (unsolicited retries, delays, confirm timeout) is plumbed field-to-namesake", r_plumb),
+    ("C14.R11", "T2-loop", "the unsolicited confirm deadline is fixed per (re)transmission, not per wake-up", r11),
 ]
